@@ -319,6 +319,21 @@ func writeLinkEvent(dir string, opts GlobalOptions, eventType, from, to string) 
 	})
 }
 
+// validateEpicRef ensures epicID names an existing, unpruned epic.
+func validateEpicRef(graph *Graph, epicID string) error {
+	if _, ok := graph.Tombstones[epicID]; ok {
+		return prunedErr(epicID)
+	}
+	epic, ok := graph.Tasks[epicID]
+	if !ok {
+		return fmt.Errorf("unknown epic id %s", epicID)
+	}
+	if !epic.IsEpic {
+		return fmt.Errorf("task %s is not an epic", epicID)
+	}
+	return nil
+}
+
 func createTask(dir string, opts GlobalOptions, epicID string, isEpic bool, title, body string) (createOutput, error) {
 	eventsPath := getEventsPath(dir)
 	lockPath := filepath.Join(dir, "lock")
@@ -333,12 +348,8 @@ func createTaskWithDir(dir string, opts GlobalOptions, lockPath, eventsPath, epi
 			return err
 		}
 		if !isEpic && epicID != "" {
-			epic, ok := graph.Tasks[epicID]
-			if !ok {
-				return fmt.Errorf("unknown epic id %s", epicID)
-			}
-			if epic.EpicID != "" {
-				return fmt.Errorf("task %s is not an epic", epicID)
+			if err := validateEpicRef(graph, epicID); err != nil {
+				return err
 			}
 		}
 		id, err := newShortID(graph.Tasks)
